@@ -909,7 +909,7 @@ class BodyElementValueGenerator_Last(BodyElementValueGenerator):
         if parentElement is None:
 
             # No parent, last() must be 1
-            return '1'
+            return BodyElementValue_Number(1)
 
         thisTagName = thisTag.tagName
 
@@ -939,7 +939,7 @@ class BodyElementValueGenerator_Position(BodyElementValueGenerator):
         if parentElement is None:
 
             # No parent, position() must be 1
-            return '1'
+            return BodyElementValue_Number(1)
 
         thisTagName = thisTag.tagName
 
